@@ -412,6 +412,8 @@ def run_execution(sc, root, prefix, visited, explore=True, bound=None, observer=
                 inc.refresh(dirty)
                 if observer is not None and (exploring or i <= len(prefix)):
                     tree = dict(inc.files)
+                    if getattr(observer, "wants_inc", False):
+                        observer.inc = inc
                     for v in observer(prev_tree, tree, w.name, desc, dirty):
                         ex.step_violations.append((v, list(ex.choices)))
                     prev_tree = tree
